@@ -53,7 +53,8 @@ for f in [f"{W}/verif/harness/Cargo.toml", f"{W}/verif/harness-wasm/Cargo.toml",
 sh(f"cp {W}/repo/Cargo.lock {W}/verif/harness/Cargo.lock", check=False)
 pj = f"{W}/verif/tools/props.json"
 if os.path.exists(pj):
-    open(pj, "w").write(open(pj).read().replace('"/verif/', f'"{W}/verif/'))
+    txt = open(pj).read().replace('"/verif/', f'"{W}/verif/')
+    open(pj, "w").write(txt)
 env = dict(os.environ, VERIF_REPO=f"{W}/repo")
 if tests:
     r = subprocess.run("cargo test --workspace --no-fail-fast --offline 2>&1 | grep -E '^test result|FAILED|failed|panicked' | awk '{p+=$4; f+=$6} END {print \"baseline tests: passed\",p,\"failed\",f}'",
@@ -64,7 +65,11 @@ for p in props:
     r = subprocess.run([f"{W}/verif/check", p, "--tier", tier], cwd=f"{W}/verif", capture_output=True, text=True, env=env)
     out = r.stdout.strip().splitlines()
     print(f"== {p}: rc={r.returncode}")
-    for l in out[-6:]:
+    keep = [l for l in out if l.startswith("VIOLATION") or l.startswith("[%s]" % p)]
+    if not any(l.startswith("[%s]" % p) for l in out):
+        # the check did not reach its verdict (build failure, crash): show why
+        keep = out[-6:] + r.stderr.strip().splitlines()[-6:] + ["CHECK-DID-NOT-COMPLETE"]
+    for l in keep[-12:]:
         print("   ", l.replace(f"{W}/verif", "<mut>"))
     rc_all |= r.returncode
 sys.exit(rc_all)
